@@ -267,18 +267,59 @@ pub struct Script {
     pub ops: Vec<Op>,
 }
 
+/// A CONNECT of version `v` whose protocol name and level are intact and whose remainder is not acceptable.
+fn damaged_connect(v: V, idw: usize, kind: u8) -> Vec<u8> {
+    let mut b = refcodec::encode(&connect_ap(v, &ConnectArgs { clean: true, keep_alive: 0, p: HsProps::default() }), idw);
+    // fixed header byte, Remaining Length (one byte for this small packet), 00 04 'M' 'Q' 'T' 'T', level, flags
+    let flags = 1 + 1 + 7;
+    if kind == 0 {
+        b[flags] |= 1;
+    } else if v == V::V5 {
+        // Property Length pointing past the end of the packet
+        b[flags + 3] = 0x7f;
+    } else {
+        // Client Identifier length pointing past the end of the packet
+        b[flags + 3] = 0xff;
+        b[flags + 4] = 0xff;
+    }
+    b
+}
+
 pub fn script_strategy() -> BoxedStrategy<Script> {
     let mut p = Profile::general();
     p.hostile = 2;
     p.offline_ops = 0;
     p.max_segments = 2;
-    (crate::gen::version(), prop_oneof![4 => Just(2usize), 1 => Just(4usize)])
-        .prop_flat_map(move |(v, idw)| {
+    (crate::gen::version(), prop_oneof![4 => Just(2usize), 1 => Just(4usize)], any::<u8>())
+        .prop_flat_map(move |(v, idw, pre)| {
             let cfg = ConnCfg { role: Role::Server, ver: CVer::of(v), idw };
             history_for(p, cfg, crate::checks::c05::hostile_op()).prop_map(move |h| {
                 // the script starts with the first CONNECT from the peer; option setters before it are kept
                 let first = h.ops.iter().position(|o| matches!(o, Op::PeerConnect(_))).unwrap_or(h.ops.len());
                 let mut ops: Vec<Op> = h.ops[..first].iter().filter(|o| matches!(o, Op::SetOpt(_) | Op::Chunk(_))).cloned().collect();
+                if pre % 3 == 0 {
+                    // the very first CONNECT carries the right protocol name and level but is damaged behind them (reserved
+                    // Connect Flags bit; a length field pointing past the end): it is refused, yet it is the first CONNECT,
+                    // so whatever follows - on this transport or on the next one - must be handled as a server created
+                    // with that version handles it
+                    ops.push(Op::PeerRaw(damaged_connect(v, idw, (pre / 3) % 2)));
+                    match (pre / 6) % 4 {
+                        0 => ops.push(Op::PeerPingreq),
+                        1 => ops.push(Op::PeerPublish { qos: 0, id: Sel::Arb(1), dup: false, topic: 0, alias: AliasMode::None, plen: 1 }),
+                        2 => {
+                            let other = if v == V::V5 { V::V311 } else { V::V5 };
+                            ops.push(Op::PeerRaw(refcodec::encode(&connect_ap(other, &ConnectArgs { clean: true, keep_alive: 0, p: HsProps::default() }), idw)));
+                        }
+                        _ => {}
+                    }
+                    ops.push(Op::Closed);
+                    if (pre / 24) % 2 == 1 {
+                        // the next connection starts with a CONNECT of the other version
+                        let other = if v == V::V5 { V::V311 } else { V::V5 };
+                        ops.push(Op::PeerRaw(refcodec::encode(&connect_ap(other, &ConnectArgs { clean: true, keep_alive: 0, p: HsProps::default() }), idw)));
+                        ops.push(Op::Closed);
+                    }
+                }
                 ops.extend(h.ops[first..].iter().cloned());
                 Script { v, idw, ops }
             })
